@@ -3,7 +3,7 @@
 From Coq Require Import List Arith Bool.
 From M Require Import Base Flat FlatSpec.
 From P Require Import FlatP FlatOrder FlatCrash.
-From M Require Import Hsm.
+From M Require Hsm.
 From P Require CrashGen HsmCrash.
 Import ListNotations.
 
@@ -77,25 +77,25 @@ Print Assumptions C04_crash_ignored_invalid.
    registered, seeing e) and every finalize callback once; the exception reaches the caller
    iff there is no handler; the configuration is the one the failing callback saw. *)
 Theorem C04_hsm_crash_point :
-  forall (hm : hmachine) (c : ctx) (ev : env) (k : nat) (e : exn) (ev_id : event) (p : nat) (f : forest) b st' r0,
+  forall (hm : Hsm.hmachine) (c : ctx) (ev : env) (k : nat) (e : exn) (ev_id : event) (p : nat) (f : Hsm.forest) b st' r0,
     CrashGen.single_raise ev k e ->
     HsmCrash.hbody hm c (CrashGen.strip ev) ev_id p f = (b, st', r0) ->
     p <= k < p + length b ->
     let s_at := it_state (nth (k - p) b HsmCrash.dummy_h) in
-    let h := CrashGen.gitems ev c SOnException (Some e) s_at (hm_on_exception hm) (S k) in
-    let fin := CrashGen.gitems ev c SFinalize (Some e) s_at (hm_finalize hm) (S k + length h) in
+    let h := CrashGen.gitems ev c SOnException (Some e) s_at (Hsm.hm_on_exception hm) (S k) in
+    let fin := CrashGen.gitems ev c SFinalize (Some e) s_at (Hsm.hm_finalize hm) (S k + length h) in
     Hsm.trigger_event hm ev c ev_id p f =
       (firstn (k - p + 1) b ++ h ++ fin, s_at,
-       match hm_on_exception hm with [] => inl e | _ => inr false end).
+       match Hsm.hm_on_exception hm with [] => inl e | _ => inr false end).
 Proof. exact HsmCrash.hsm_crash. Qed.
 Print Assumptions C04_hsm_crash_point.
 
 (* a raising finalize callback never replaces the outcome *)
 Theorem C04_hsm_crash_finalize :
-  forall (hm : hmachine) (c : ctx) (ev : env) (k : nat) (e : exn) (ev_id : event) (p : nat) (f : forest) b st' res,
+  forall (hm : Hsm.hmachine) (c : ctx) (ev : env) (k : nat) (e : exn) (ev_id : event) (p : nat) (f : Hsm.forest) b st' res,
     CrashGen.single_raise ev k e ->
     HsmCrash.hbody hm c (CrashGen.strip ev) ev_id p f = (b, st', inr res) ->
-    let fin := CrashGen.gitems ev c SFinalize None st' (hm_finalize hm) (p + length b) in
+    let fin := CrashGen.gitems ev c SFinalize None st' (Hsm.hm_finalize hm) (p + length b) in
     p + length b <= k < p + length b + length fin ->
     Hsm.trigger_event hm ev c ev_id p f = (b ++ firstn (k - (p + length b) + 1) fin, st', inr res).
 Proof. exact HsmCrash.hsm_crash_finalize. Qed.
